@@ -27,7 +27,7 @@ theorem passNodes_doneCount (P : Params) (cfg : Cfg) (nodes : List (Option Item)
       · simp [notDoneCount, hd]; omega
 
 theorem workLoop_no_hang (P : Params) (fuel : Nat) (st : State) :
-    workLoop P (notDoneCount st.nodes) (fuel + 1) st ≠ .hang := by
+    workLoop P (notDoneCount st.nodes) (fuel + 1) 0 st ≠ .hang := by
   simp only [workLoop]
   rw [passNodes_doneCount]
   simp
@@ -39,10 +39,10 @@ theorem processTree_no_hang (P : Params) (fuel : Nat) (st : State) :
   split
   · simp
   · have h := workLoop_no_hang P fuel (configStep P st)
-    generalize workLoop P (notDoneCount (configStep P st).nodes) (fuel + 1) (configStep P st) = o at h
+    generalize workLoop P (notDoneCount (configStep P st).nodes) (fuel + 1) 0 (configStep P st) = o at h
     cases o with
-    | ok st2 => simp
-    | panic => simp
+    | finished st2 => simp
+    | stalled st2 => simp
     | hang => exact absurd rfl h
 
 theorem step_no_hang (P : Params) (fuel : Nat) (st : State) (op : Op) :
@@ -256,6 +256,7 @@ structure Inv (P : Params) (init : Fs) (last : Cfg) (st : State) : Prop where
   out_other : ∀ q, startsWith q P.output = true →
     (∃ i it, st.item? i = some it ∧ it.output = q) ∨ q ∈ st.removeFiles ∨ alookup st.fs q = alookup init q
   rm_src : ∀ q, q ∈ st.removeFiles → ∃ p, P.isLua p = true ∧ startsWith p P.input = true ∧ q = outPath P p
+  rm_noitem : ∀ q, q ∈ st.removeFiles → ∀ j it, st.item? j = some it → it.output ≠ q
 
 /-- every source on disk has a work item (what `collect_work` establishes) -/
 def Synced (P : Params) (st : State) : Prop :=
@@ -363,6 +364,12 @@ theorem restartWork_inv {P : Params} {init : Fs} {last : Cfg} {st st' : State} {
         · exact Or.inr (Or.inl h)
         · exact Or.inr (Or.inr h)
       · exact hI.rm_src
+      · intro q hq k it' hk
+        rw [hitem] at hk
+        by_cases hki : k = i
+        · subst hki; simp at hk; subst hk
+          exact hI.rm_noitem q hq k it hit
+        · simp [hki] at hk; exact hI.rm_noitem q hq k it' hk
     · intro j
       rw [hitem]
       rfl
@@ -702,6 +709,7 @@ theorem step_edit_good {P : Params} {init : Fs} {last : Cfg} {st : State} {fuel 
         have : q ≠ p := by intro hqp; rw [hqp, hpo] at hq; cases hq
         simp [this, h]
     · exact hI1.rm_src
+    · exact hI1.rm_noitem
   · intro hc
     have hc0 : st.hasCreated = false := by rw [← hfr.hasCreated]; exact hc
     intro q hq hin hlua
@@ -733,7 +741,7 @@ theorem insertSource_inv {P : Params} {init : Fs} {last : Cfg} {st : State} {p :
     (hI : Inv P init last st) (hnone : alookup st.nodeMap p = none)
     (hin : startsWith p P.input = true) (hlua : P.isLua p = true) (hex : (alookup st.fs p).isSome = true) :
     Inv P init last (insertSource P st p) ∧ (insertSource P st p).fs = st.fs
-    ∧ (insertSource P st p).removeFiles = st.removeFiles ∧ (insertSource P st p).cfg = st.cfg
+    ∧ (∀ q, q ∈ (insertSource P st p).removeFiles → q ∈ st.removeFiles) ∧ (insertSource P st p).cfg = st.cfg
     ∧ (insertSource P st p).hasCreated = st.hasCreated ∧ (insertSource P st p).lastHash = st.lastHash
     ∧ (∃ i, (insertSource P st p).nodeMap = (p, i) :: st.nodeMap) := by
   let it : Item := { source := p, output := outPath P p, status := .notStarted, deps := [] }
@@ -742,7 +750,7 @@ theorem insertSource_inv {P : Params} {init : Fs} {last : Cfg} {st : State} {p :
   have key : ∀ (st' : State) (i : Nat), st.item? i = none →
       (∀ j, st'.item? j = if j = i then some it else st.item? j) →
       st'.nodeMap = (p, i) :: st.nodeMap → st'.fs = st.fs → st'.extDeps = st.extDeps →
-      st'.removeFiles = st.removeFiles →
+      (∀ q, q ∈ st'.removeFiles ↔ q ∈ st.removeFiles ∧ q ≠ outPath P p) →
       (∀ k, k ∈ st'.free → k < st'.nodes.length ∧ st.item? k = none ∧ k ≠ i) → st'.free.Nodup →
       Inv P init last st' := by
     intro st' i hvac hitem hmap hfs hext hrm hfree hnd
@@ -805,30 +813,44 @@ theorem insertSource_inv {P : Params} {init : Fs} {last : Cfg} {st : State} {p :
       · subst hki; simp at hk; subst hk; simp [it] at hs
       · simp [hki] at hk; exact hI.done_ok k it' ok hk hs
     · intro q hq
-      rw [hfs, hrm]
+      rw [hfs]
       rcases hI.out_other q hq with ⟨k, it', h1, h2⟩ | h | h
       · left
         have hki : k ≠ i := by intro h; subst h; rw [hvac] at h1; cases h1
         exact ⟨k, it', by rw [hitem]; simp [hki, h1], h2⟩
-      · exact Or.inr (Or.inl h)
+      · by_cases hqo : q = outPath P p
+        · exact Or.inl ⟨i, it, by rw [hitem]; simp, hqo.symm⟩
+        · exact Or.inr (Or.inl ((hrm q).2 ⟨h, hqo⟩))
       · exact Or.inr (Or.inr h)
-    · rw [hrm]; exact hI.rm_src
+    · intro q hq; exact hI.rm_src q ((hrm q).1 hq).1
+    · intro q hq k it' hk
+      rw [hitem] at hk
+      by_cases hki : k = i
+      · subst hki; simp at hk; subst hk
+        exact fun h => ((hrm q).1 hq).2 h.symm
+      · simp [hki] at hk; exact hI.rm_noitem q ((hrm q).1 hq).1 k it' hk
+  have hfiltiff : ∀ q, q ∈ (st.removeFiles.filter fun q => !(q == outPath P p)) ↔
+      q ∈ st.removeFiles ∧ q ≠ outPath P p := by
+    intro q; simp [List.mem_filter]
+  have hfilt : ∀ q, q ∈ (st.removeFiles.filter fun q => !(q == outPath P p)) → q ∈ st.removeFiles :=
+    fun q hq => ((hfiltiff q).1 hq).1
   rcases addNode_cases st it with ⟨i, rest, hfree, hadd⟩ | ⟨hfree, hadd⟩
   · have hi := hI.free_ok i (by simp [hfree])
     have hnd := hI.free_nodup
     rw [hfree] at hnd
     have heq : insertSource P st p =
-        { st with nodes := st.nodes.set i (some it), free := rest, nodeMap := (p, i) :: st.nodeMap } := by
-      show (let (st', i) := addNode st it; ({ st' with nodeMap := (p, i) :: st'.nodeMap } : State)) = _
+        { st with nodes := st.nodes.set i (some it), free := rest, nodeMap := (p, i) :: st.nodeMap,
+                  removeFiles := st.removeFiles.filter fun q => !(q == outPath P p) } := by
+      show (let (st', i) := addNode st it; ({ st' with nodeMap := (p, i) :: st'.nodeMap, removeFiles := st'.removeFiles.filter fun q => !(q == outPath P p) } : State)) = _
       rw [hadd]
     rw [heq]
-    refine ⟨?_, rfl, rfl, rfl, rfl, rfl, ⟨i, rfl⟩⟩
+    refine ⟨?_, rfl, hfilt, rfl, rfl, rfl, ⟨i, rfl⟩⟩
     apply key _ i hi.2
     · intro j; simp only [item?_eq, nodeAt_set, hi.1, if_true]
     · rfl
     · rfl
     · rfl
-    · rfl
+    · exact hfiltiff
     · intro k hk
       have hk' : k ∈ rest := hk
       have := hI.free_ok k (by simp [hfree, hk'])
@@ -837,18 +859,19 @@ theorem insertSource_inv {P : Params} {init : Fs} {last : Cfg} {st : State} {p :
       exact (List.nodup_cons.1 hnd).1 hk'
     · exact (List.nodup_cons.1 hnd).2
   · have heq : insertSource P st p =
-        { st with nodes := st.nodes ++ [some it], nodeMap := (p, st.nodes.length) :: st.nodeMap } := by
-      show (let (st', i) := addNode st it; ({ st' with nodeMap := (p, i) :: st'.nodeMap } : State)) = _
+        { st with nodes := st.nodes ++ [some it], nodeMap := (p, st.nodes.length) :: st.nodeMap,
+                  removeFiles := st.removeFiles.filter fun q => !(q == outPath P p) } := by
+      show (let (st', i) := addNode st it; ({ st' with nodeMap := (p, i) :: st'.nodeMap, removeFiles := st'.removeFiles.filter fun q => !(q == outPath P p) } : State)) = _
       rw [hadd]
     rw [heq]
-    refine ⟨?_, rfl, rfl, rfl, rfl, rfl, ⟨st.nodes.length, rfl⟩⟩
+    refine ⟨?_, rfl, hfilt, rfl, rfl, rfl, ⟨st.nodes.length, rfl⟩⟩
     apply key _ st.nodes.length
     · simp [item?_eq, nodeAt]
     · intro j; simp only [item?_eq, nodeAt_append]
     · rfl
     · rfl
     · rfl
-    · rfl
+    · exact hfiltiff
     · intro k hk
       have hk' : k ∈ st.free := hk
       simp [hfree] at hk'
@@ -858,7 +881,7 @@ theorem insertSource_inv {P : Params} {init : Fs} {last : Cfg} {st : State} {p :
 /-- what `collect_work` leaves untouched -/
 structure CFrame (st st' : State) : Prop where
   fs : st'.fs = st.fs
-  removeFiles : st'.removeFiles = st.removeFiles
+  removeFiles : ∀ q, q ∈ st'.removeFiles → q ∈ st.removeFiles
   cfg : st'.cfg = st.cfg
   hasCreated : st'.hasCreated = st.hasCreated
   lastHash : st'.lastHash = st.lastHash
@@ -871,7 +894,7 @@ theorem addSourceIfMissing_inv {P : Params} {init : Fs} {last : Cfg} {st : State
     ∧ ∃ i, (p, i) ∈ (addSourceIfMissing P st p).nodeMap := by
   unfold addSourceIfMissing
   cases hl : alookup st.nodeMap p with
-  | some i => exact ⟨hI, ⟨rfl, rfl, rfl, rfl, rfl, fun e h => h⟩, i, alookup_some_mem _ _ _ hl⟩
+  | some i => exact ⟨hI, ⟨rfl, fun _ h => h, rfl, rfl, rfl, fun e h => h⟩, i, alookup_some_mem _ _ _ hl⟩
   | none =>
     obtain ⟨h1, h2, h3, h4, h5, h6, i, h7⟩ := insertSource_inv hI hl hin hlua hex
     refine ⟨h1, ⟨h2, h3, h4, h5, h6, ?_⟩, i, ?_⟩
@@ -884,7 +907,7 @@ theorem foldl_addSource_inv {P : Params} {init : Fs} {last : Cfg} (ps : List Pat
       Inv P init last (ps.foldl (addSourceIfMissing P) st) ∧ CFrame st (ps.foldl (addSourceIfMissing P) st)
       ∧ ∀ p, p ∈ ps → ∃ i, (p, i) ∈ (ps.foldl (addSourceIfMissing P) st).nodeMap := by
   induction ps with
-  | nil => intro st hI _; exact ⟨hI, ⟨rfl, rfl, rfl, rfl, rfl, fun e h => h⟩, by simp⟩
+  | nil => intro st hI _; exact ⟨hI, ⟨rfl, fun _ h => h, rfl, rfl, rfl, fun e h => h⟩, by simp⟩
   | cons p ps ih =>
     intro st hI hps
     obtain ⟨h1, h2, h3⟩ := hps p (by simp)
@@ -894,7 +917,7 @@ theorem foldl_addSource_inv {P : Params} {init : Fs} {last : Cfg} (ps : List Pat
       intro q hq; rw [g2.fs]; exact hps q (by simp [hq])
     obtain ⟨k1, k2, k3⟩ := ih _ g1 hps'
     simp only [List.foldl]
-    refine ⟨k1, ⟨k2.fs.trans g2.fs, k2.removeFiles.trans g2.removeFiles, k2.cfg.trans g2.cfg,
+    refine ⟨k1, ⟨k2.fs.trans g2.fs, fun q hq => g2.removeFiles q (k2.removeFiles q hq), k2.cfg.trans g2.cfg,
       k2.hasCreated.trans g2.hasCreated, k2.lastHash.trans g2.lastHash, fun e he => k2.mono e (g2.mono e he)⟩, ?_⟩
     intro q hq
     simp only [List.mem_cons] at hq
@@ -937,7 +960,7 @@ theorem step_setConfig_good {P : Params} {init : Fs} {last : Cfg} {st : State} {
   obtain ⟨hI, hS, hH⟩ := hG
   refine ⟨{ st with cfg := k }, rfl, ⟨?_, hS, hH⟩⟩
   exact ⟨hI.nm_fun, hI.nm_item, hI.item_nm, hI.free_ok, hI.free_nodup, hI.src_in, hI.ext_sub, hI.ext_sup,
-    hI.ns_deps, hI.done_ok, hI.out_other, hI.rm_src⟩
+    hI.ns_deps, hI.done_ok, hI.out_other, hI.rm_src, hI.rm_noitem⟩
 
 theorem step_collectWork_good {P : Params} {init : Fs} {last : Cfg} {st : State} {fuel : Nat}
     (hG : Good P init last st) :
@@ -1006,6 +1029,7 @@ theorem step_add_good {P : Params} {init : Fs} {last : Cfg} {st : State} {fuel :
         have : q ≠ p := by intro hqp; rw [hqp, hpo] at hq; cases hq
         simp [this, h]
     · exact hI.rm_src
+    · exact hI.rm_noitem
   · intro h; cases h
 
 
@@ -1220,6 +1244,11 @@ theorem reset_inv {P : Params} {init : Fs} {last last' : Cfg} {st : State} (hI :
     · exact Or.inr (Or.inl h)
     · exact Or.inr (Or.inr h)
   · exact hI.rm_src
+  · intro q hq i it hi
+    rw [hitem] at hi
+    cases h : st.item? i with
+    | none => simp [h] at hi
+    | some it0 => simp [h] at hi; subst hi; exact hI.rm_noitem q hq i it0 h
 
 theorem inv_of_eq_fields {P : Params} {init : Fs} {last : Cfg} {st st' : State} (hI : Inv P init last st)
     (h1 : st'.fs = st.fs) (h2 : st'.nodes = st.nodes) (h3 : st'.free = st.free) (h4 : st'.nodeMap = st.nodeMap)
@@ -1243,6 +1272,7 @@ theorem inv_of_eq_fields {P : Params} {init : Fs} {last : Cfg} {st st' : State} 
     · exact Or.inr (Or.inl h)
     · exact Or.inr (Or.inr h)
   · rw [h6]; exact hI.rm_src
+  · intro q hq j it; rw [hitem]; rw [h6] at hq; exact hI.rm_noitem q hq j it
 
 /-- the state after the configuration check: results now belong to the current configuration -/
 theorem configStep_inv {P : Params} {init : Fs} {last : Cfg} {st : State} (hI : Inv P init last st)
@@ -1612,6 +1642,13 @@ theorem pass_inv {P : Params} {init : Fs} {st : State} (hWF : WF P init) (hI : I
             obtain ⟨j, hj⟩ := mem_nodeAt hm
             exact hex ⟨j, it, hj, hoq⟩
     · exact hI.rm_src
+    · intro q hq i it hi
+      rw [hitem] at hi
+      cases h : st.item? i with
+      | none => simp [h] at hi
+      | some it0 =>
+        simp [h] at hi; subst hi
+        rw [advOf_output]; exact hI.rm_noitem q hq i it0 h
   · intro j it hj
     rw [hitem] at hj
     cases h : st.item? j with
@@ -1721,6 +1758,7 @@ theorem cleanFiles_inv {P : Params} {init : Fs} {last : Cfg} {st : State} (hWF :
         obtain ⟨p, k1, k2, k3⟩ := hI.rm_src q g2
         rw [initClean_none hWF k1 k2 (by rw [← k3]; exact g3)]
   · intro q hq; cases hq
+  · intro q hq; cases hq
 
 
 /-- what holds right after a `process` that stayed inside `H10` -/
@@ -1731,6 +1769,14 @@ structure Settled (P : Params) (init : Fs) (st : State) : Prop where
   noRemove : st.removeFiles = []
   created : st.hasCreated = false
   hash : st.lastHash = some (P.configHash st.cfg)
+
+theorem strictlyUnder_false_of {q p : Path} (h : strictlyUnder q p = false) (hne : q ≠ p) :
+    startsWith q p = false := by
+  unfold strictlyUnder at h
+  simp only [Bool.and_eq_false_iff, bne_eq_false_iff_eq] at h
+  rcases h with h | h
+  · exact absurd h hne
+  · exact h
 
 theorem any_false_item {st : State} {f : Option Item → Bool} (h : st.nodes.any f = false)
     {j : Nat} {it : Item} (hj : st.item? j = some it) : f (some it) = false := by
@@ -1744,8 +1790,8 @@ theorem processTree_settled {P : Params} {init : Fs} {last : Cfg} {st : State} (
     (hI : Inv P init last st) (hS : Synced P st) (hc : st.hasCreated = false)
     (hh : st.lastHash = some (P.configHash last) ∨ (st.lastHash = none ∧ last = st.cfg))
     (hF13 : ¬ (st.lastHash = some (P.configHash st.cfg) ∧ st.cfg ≠ last))
-    (hsep : ∀ q, q ∈ (configStep P st).removeFiles →
-      ∀ j it, (configStep P st).item? j = some it → startsWith it.output q = false)
+    (hunder : ∀ q, q ∈ (configStep P st).removeFiles →
+      ∀ j it, (configStep P st).item? j = some it → strictlyUnder it.output q = false)
     (hE : ∀ j it, (configStep P st).item? j = some it →
       it.status.isDone = false →
       (P.T (configStep P st).cfg (alookup (configStep P st).fs) it.source).out = none →
@@ -1755,6 +1801,9 @@ theorem processTree_settled {P : Params} {init : Fs} {last : Cfg} {st : State} (
   have hS1 : Synced P (configStep P st) := by
     intro p hp hin hlua
     rw [h2] at hp; rw [h3]; exact hS p hp hin hlua
+  have hsep : ∀ q, q ∈ (configStep P st).removeFiles →
+      ∀ j it, (configStep P st).item? j = some it → startsWith it.output q = false :=
+    fun q hq j it hj => strictlyUnder_false_of (hunder q hq j it hj) (h1.rm_noitem q hq j it hj)
   unfold processTree
   simp only
   by_cases ht : notDoneCount (configStep P st).nodes = 0
@@ -1771,8 +1820,8 @@ theorem processTree_settled {P : Params} {init : Fs} {last : Cfg} {st : State} (
     · show (configStep P st).lastHash = some (P.configHash (configStep P st).cfg)
       rw [h7, h5]
   · simp only [ht, if_false]
-    have hloop : workLoop P (notDoneCount (configStep P st).nodes) 1 (configStep P st)
-        = .ok (passState P (configStep P st)) := by
+    have hloop : workLoop P (notDoneCount (configStep P st).nodes) 1 0 (configStep P st)
+        = .finished (passState P (configStep P st)) := by
       simp only [workLoop]
       rw [passNodes_doneCount]
       simp [passState]
@@ -1907,26 +1956,43 @@ theorem removeNode_withFs (st : State) (f : Fs) (i : Nat) :
   cases st.item? i <;> rfl
 
 theorem removeNodes_withFs (f : Fs) (is : List Nat) : ∀ (st : State),
-    removeNodes (withFs st f) is = withFs (removeNodes st is) f := by
+    removeNodes (withFs st f) is = (removeNodes st is).map (withFs · f) := by
   induction is with
   | nil => intro st; rfl
   | cons i is ih =>
     intro st
     simp only [removeNodes]
-    rw [removeNode_withFs]
-    generalize removeNode st i = r
-    obtain ⟨st', o⟩ := r
-    cases o with
-    | none => exact ih st'
-    | some it => exact ih { st' with removeFiles := st'.removeFiles ++ [it.output] }
+    have hi : (withFs st f).item? i = st.item? i := rfl
+    rw [hi]
+    cases st.item? i with
+    | none => exact ih st
+    | some it =>
+      simp only
+      rw [restartWork_withFs]
+      cases restartWork st i with
+      | none => rfl
+      | some st1 =>
+        simp only [Option.map, removeNode_withFs]
+        exact ih { (removeNode st1 i).1 with removeFiles := st1.removeFiles ++ [it.output] }
 
-/-- the two branches of `remove_source`, before `update_external_dependencies` -/
+theorem updateExtAll_withFs (f : Fs) (ds : List Path) : ∀ (st : State),
+    updateExternalDependenciesAll (withFs st f) ds = (updateExternalDependenciesAll st ds).map (withFs · f) := by
+  induction ds with
+  | nil => intro st; rfl
+  | cons d ds ih =>
+    intro st
+    simp only [updateExternalDependenciesAll, updateExt_withFs]
+    cases updateExternalDependencies st d with
+    | none => rfl
+    | some st1 => simp only [Option.map]; exact ih st1
+
+/-- the two branches of `remove_source`, before the dependants are restarted -/
 def removeFileBranch (st : State) (p : Path) (i : Nat) (it : Item) : Option State :=
   match restartWork { st with removeFiles := st.removeFiles ++ [it.output] } i with
   | some st2 => some { (removeNode st2 i).1 with nodeMap := aerase (removeNode st2 i).1.nodeMap p }
   | none => none
 
-def removeDirBranch (st : State) (p : Path) : State :=
+def removeDirBranch (st : State) (p : Path) : Option State :=
   removeNodes { st with nodeMap := st.nodeMap.filter fun e => !(startsWith e.1 p) }
     ((st.nodeMap.filter fun e => startsWith e.1 p).map (·.2))
 
@@ -1936,13 +2002,16 @@ def removeBranches (st : State) (p : Path) : Option State :=
     match st.item? i with
     | some it => removeFileBranch st p i it
     | none => none
-  | none => some (removeDirBranch st p)
+  | none => removeDirBranch st p
+
+/-- the keys of `external_dependencies` at or below `p` -/
+def keysBelow (st : State) (p : Path) : List Path := (st.extDeps.map (·.1)).filter fun d => startsWith d p
 
 theorem removeSource_eq (st : State) (p : Path) :
     removeSource st p = match removeBranches st p with
-      | some st' => updateExternalDependencies st' p
+      | some st' => updateExternalDependenciesAll st' (keysBelow st' p)
       | none => none := by
-  unfold removeSource removeBranches removeFileBranch removeDirBranch
+  unfold removeSource removeBranches removeFileBranch removeDirBranch keysBelow
   cases alookup st.nodeMap p with
   | some i =>
     simp only
@@ -1966,7 +2035,7 @@ theorem removeFileBranch_withFs (st : State) (f : Fs) (p : Path) (i : Nat) (it :
     rfl
 
 theorem removeDirBranch_withFs (st : State) (f : Fs) (p : Path) :
-    removeDirBranch (withFs st f) p = withFs (removeDirBranch st p) f := by
+    removeDirBranch (withFs st f) p = (removeDirBranch st p).map (withFs · f) := by
   unfold removeDirBranch
   have heq : ({ withFs st f with nodeMap := (withFs st f).nodeMap.filter fun e => !(startsWith e.1 p) } : State)
       = withFs { st with nodeMap := st.nodeMap.filter fun e => !(startsWith e.1 p) } f := rfl
@@ -1985,37 +2054,40 @@ theorem removeBranches_withFs (st : State) (f : Fs) (p : Path) :
     cases st.item? i with
     | none => rfl
     | some it => exact removeFileBranch_withFs st f p i it
-  | none =>
-    simp only [Option.map]
-    rw [removeDirBranch_withFs]
+  | none => exact removeDirBranch_withFs st f p
 
 theorem removeSource_withFs (st : State) (f : Fs) (p : Path) :
     removeSource (withFs st f) p = (removeSource st p).map (withFs · f) := by
   rw [removeSource_eq, removeSource_eq, removeBranches_withFs]
   cases removeBranches st p with
   | none => rfl
-  | some st' => simp only [Option.map]; exact updateExt_withFs st' f p
+  | some st' =>
+    simp only [Option.map]
+    have : keysBelow (withFs st' f) p = keysBelow st' p := rfl
+    rw [this]
+    exact updateExtAll_withFs f _ st'
 
 /-- effect of `removeNodes` (the directory branch's loop over the collected indices) -/
 theorem removeNodes_spec (is : List Nat) : ∀ (st : State),
     (∀ k, k ∈ st.free → st.item? k = none) → st.free.Nodup →
-    let st' := removeNodes st is
-    (∀ j, st'.item? j = if j ∈ is then none else st.item? j)
+    ∃ st', removeNodes st is = some st'
+    ∧ (∀ j, st'.item? j = if j ∈ is then none else st.item? j)
     ∧ (∀ k, k ∈ st'.free ↔ k ∈ st.free ∨ (k ∈ is ∧ (st.item? k).isSome = true))
     ∧ st'.free.Nodup ∧ st'.nodes.length = st.nodes.length
     ∧ (∀ q, q ∈ st'.removeFiles ↔ q ∈ st.removeFiles ∨ ∃ k it, k ∈ is ∧ st.item? k = some it ∧ it.output = q)
-    ∧ st'.fs = st.fs ∧ st'.extDeps = st.extDeps ∧ st'.nodeMap = st.nodeMap ∧ st'.cfg = st.cfg
+    ∧ st'.fs = st.fs
+    ∧ (∀ d k, (d, k) ∈ st'.extDeps ↔
+        (d, k) ∈ st.extDeps ∧ ¬ (k ∈ is ∧ ∃ it, st.item? k = some it ∧ d ∈ it.deps))
+    ∧ st'.nodeMap = st.nodeMap ∧ st'.cfg = st.cfg
     ∧ st'.hasCreated = st.hasCreated ∧ st'.lastHash = st.lastHash := by
   induction is with
-  | nil => intro st _ hnd; simp [removeNodes, hnd]
+  | nil => intro st _ hnd; exact ⟨st, rfl, by simp, by simp, hnd, rfl, by simp, rfl, by simp, rfl, rfl, rfl, rfl⟩
   | cons i is ih =>
     intro st hfree hnd
     cases hit : st.item? i with
     | none =>
-      have hrn : removeNode st i = (st, none) := by simp [removeNode, hit]
-      simp only [removeNodes, hrn]
-      obtain ⟨h1, h2, h3, h4, h5, h6⟩ := ih st hfree hnd
-      refine ⟨?_, ?_, h3, h4, ?_, h6⟩
+      obtain ⟨st', h0, h1, h2, h3, h4, h5, h6, h7, h8⟩ := ih st hfree hnd
+      refine ⟨st', by simp only [removeNodes, hit]; exact h0, ?_, ?_, h3, h4, ?_, h6, ?_, h8⟩
       · intro j; rw [h1]
         by_cases hj : j = i
         · subst hj; simp [hit]
@@ -2042,17 +2114,31 @@ theorem removeNodes_spec (is : List Nat) : ∀ (st : State),
             rcases ha with ha | ha
             · subst ha; rw [hit] at hb; cases hb
             · exact Or.inr ⟨k, it, ha, hb, hc⟩
+      · intro d k; rw [h7]
+        simp only [List.mem_cons]
+        constructor
+        · rintro ⟨g1, g2⟩
+          refine ⟨g1, ?_⟩
+          rintro ⟨hk | hk, it, g3, g4⟩
+          · subst hk; rw [hit] at g3; cases g3
+          · exact g2 ⟨hk, it, g3, g4⟩
+        · rintro ⟨g1, g2⟩
+          exact ⟨g1, fun ⟨hk, it, g3, g4⟩ => g2 ⟨Or.inr hk, it, g3, g4⟩⟩
     | some it =>
       have hlt : i < st.nodes.length := nodeAt_lt hit
-      let st1 : State := { st with nodes := st.nodes.set i none, free := i :: st.free,
+      let st1 : State := { st with nodes := (st.nodes.set i (some it.reset)).set i none, free := i :: st.free,
+                                   extDeps := unlinkAll st.extDeps i it.deps,
                                    removeFiles := st.removeFiles ++ [it.output] }
-      have hrn : removeNode st i = ({ st with nodes := st.nodes.set i none, free := i :: st.free }, some it) := by
-        simp [removeNode, hit]
       have hstep : removeNodes st (i :: is) = removeNodes st1 is := by
-        simp only [removeNodes, hrn]; rfl
+        have hitB : (restartedState st i it).item? i = some it.reset := by
+          simp only [item?_eq, restartedState, nodeAt_set, hlt, if_true]
+        simp only [removeNodes, hit, restartWork_spec hit, removeNode, hitB]
+        rfl
       rw [hstep]
       have hitem1 : ∀ j, st1.item? j = if j = i then none else st.item? j := by
-        intro j; simp only [item?_eq, st1, nodeAt_set, hlt, if_true]
+        intro j
+        simp only [item?_eq, st1, nodeAt_set, List.length_set, hlt, if_true]
+        by_cases hj : j = i <;> simp [hj]
       have hinot : i ∉ st.free := by
         intro h; have := hfree i h; rw [hit] at this; cases this
       have hfree1 : ∀ k, k ∈ st1.free → st1.item? k = none := by
@@ -2065,8 +2151,8 @@ theorem removeNodes_spec (is : List Nat) : ∀ (st : State),
           simp only [List.mem_cons, hki, false_or] at this
           exact hfree k this
       have hnd1 : st1.free.Nodup := List.nodup_cons.2 ⟨hinot, hnd⟩
-      obtain ⟨h1, h2, h3, h4, h5, h6, h7, h8, h9, h10, h11⟩ := ih st1 hfree1 hnd1
-      refine ⟨?_, ?_, h3, by rw [h4]; simp [st1], ?_, h6, h7, h8, h9, h10, h11⟩
+      obtain ⟨st', h0, h1, h2, h3, h4, h5, h6, h7, h8, h9, h10, h11⟩ := ih st1 hfree1 hnd1
+      refine ⟨st', h0, ?_, ?_, h3, by rw [h4]; simp [st1], ?_, h6, ?_, h8, h9, h10, h11⟩
       · intro j; rw [h1, hitem1]
         by_cases hj : j = i
         · subst hj; simp
@@ -2079,7 +2165,7 @@ theorem removeNodes_spec (is : List Nat) : ∀ (st : State),
         · simp [hki]
       · intro q; rw [h5]
         show q ∈ st.removeFiles ++ [it.output] ∨ _ ↔ _
-        simp only [List.mem_append, List.mem_singleton, List.mem_cons]
+        simp only [List.mem_append, List.mem_cons]
         constructor
         · rintro ((h | h) | ⟨k, it', ha, hb, hc⟩)
           · exact Or.inl h
@@ -2098,7 +2184,35 @@ theorem removeNodes_spec (is : List Nat) : ∀ (st : State),
             · rcases ha with ha | ha
               · exact absurd ha hki
               · exact Or.inr ⟨k, it', ha, by rw [hitem1]; simp [hki, hb], hc⟩
-
+      · intro d k; rw [h7]
+        show (d, k) ∈ unlinkAll st.extDeps i it.deps ∧ _ ↔ _
+        rw [mem_unlinkAll]
+        have hk1 := hitem1 k
+        by_cases hki : k = i
+        · subst hki
+          have hk2 : st1.item? k = none := by rw [hk1]; simp
+          constructor
+          · rintro ⟨⟨g1, g2⟩, _⟩
+            refine ⟨g1, ?_⟩
+            rintro ⟨_, it', g3, g4⟩
+            rw [hit] at g3; simp at g3; subst g3
+            exact g2 ⟨rfl, g4⟩
+          · rintro ⟨g1, g2⟩
+            refine ⟨⟨g1, fun g3 => g2 ⟨List.mem_cons_self, it, hit, g3.2⟩⟩, ?_⟩
+            rintro ⟨_, it', g3, _⟩
+            rw [hk2] at g3; cases g3
+        · have hk2 : st1.item? k = st.item? k := by rw [hk1]; simp [hki]
+          rw [hk2]
+          constructor
+          · rintro ⟨⟨g1, _⟩, g2⟩
+            refine ⟨g1, ?_⟩
+            rintro ⟨hk, it', g3, g4⟩
+            simp only [List.mem_cons] at hk
+            rcases hk with hk | hk
+            · exact hki hk
+            · exact g2 ⟨hk, it', g3, g4⟩
+          · rintro ⟨g1, g2⟩
+            exact ⟨⟨g1, fun g3 => hki g3.1⟩, fun ⟨hk, it', g3, g4⟩ => g2 ⟨List.mem_cons_of_mem _ hk, it', g3, g4⟩⟩
 
 /-- vacating a set `R` of slots that nothing links to keeps the invariant (same file system) -/
 theorem vacate_inv {P : Params} {init : Fs} {last : Cfg} {st st' : State} (R : Nat → Prop)
@@ -2165,6 +2279,16 @@ theorem vacate_inv {P : Params} {init : Fs} {last : Cfg} {st st' : State} (R : N
     · exact hI.rm_src q h
     · have := hI.item_src g1
       exact ⟨it.source, this.2.1, this.1, by rw [← g2]; exact hI.item_out g1⟩
+  · intro q hq j it hj
+    by_cases hr : R j
+    · rw [hR j hr] at hj; cases hj
+    · rw [hnR j hr] at hj
+      rcases (hrm q).1 hq with h | ⟨k, it', g0, g1, g2⟩
+      · exact hI.rm_noitem q h j it hj
+      · intro hout
+        have := hI.outputs_inj hj g1 (hout.trans g2.symm)
+        subst this
+        exact hr g0
 
 theorem mem_aerase {β : Type} (m : List (Path × β)) (k : Path) (e : Path × β) :
     e ∈ aerase m k ↔ e ∈ m ∧ e.1 ≠ k := by
@@ -2275,21 +2399,20 @@ theorem removeFileBranch_inv {P : Params} {init : Fs} {last : Cfg} {st : State} 
   · intro d k h; exact ((hCext d k).1 h).1
 
 
-/-- the directory branch of `remove_source`, when no link points into the removed set -/
+/-- the directory branch of `remove_source` (fixed: the removed items are unregistered first) -/
 theorem removeDirBranch_inv {P : Params} {init : Fs} {last : Cfg} {st : State} {p : Path}
-    (hI : Inv P init last st)
-    (hno : ∀ d k, (d, k) ∈ st.extDeps → ∀ q, (q, k) ∈ st.nodeMap → startsWith q p = false) :
-    Inv P init last (removeDirBranch st p) ∧ (removeDirBranch st p).fs = st.fs
-      ∧ (removeDirBranch st p).cfg = st.cfg ∧ (removeDirBranch st p).hasCreated = st.hasCreated
-      ∧ (removeDirBranch st p).lastHash = st.lastHash
-      ∧ (∀ e, e ∈ (removeDirBranch st p).nodeMap ↔ e ∈ st.nodeMap ∧ startsWith e.1 p = false)
-      ∧ (∀ j it', (removeDirBranch st p).item? j = some it' → st.item? j = some it')
-      ∧ (∀ d k, (d, k) ∈ (removeDirBranch st p).extDeps → (d, k) ∈ st.extDeps) := by
+    (hI : Inv P init last st) :
+    ∃ stC, removeDirBranch st p = some stC ∧ Inv P init last stC ∧ stC.fs = st.fs
+      ∧ stC.cfg = st.cfg ∧ stC.hasCreated = st.hasCreated ∧ stC.lastHash = st.lastHash
+      ∧ (∀ e, e ∈ stC.nodeMap ↔ e ∈ st.nodeMap ∧ startsWith e.1 p = false)
+      ∧ (∀ j it', stC.item? j = some it' → st.item? j = some it')
+      ∧ (∀ d k, (d, k) ∈ stC.extDeps → (d, k) ∈ st.extDeps) := by
   let removed := (st.nodeMap.filter fun e => startsWith e.1 p).map (·.2)
   let st1 : State := { st with nodeMap := st.nodeMap.filter fun e => !(startsWith e.1 p) }
   have hfree1 : ∀ k, k ∈ st1.free → st1.item? k = none := fun k hk => (hI.free_ok k hk).2
-  obtain ⟨h1, h2, h3, h4, h5, h6, h7, h8, h9, h10, h11⟩ := removeNodes_spec removed st1 hfree1 hI.free_nodup
-  have hres : removeDirBranch st p = removeNodes st1 removed := rfl
+  obtain ⟨stC, h0, h1, h2, h3, h4, h5, h6, h7, h8, h9, h10, h11⟩ :=
+    removeNodes_spec removed st1 hfree1 hI.free_nodup
+  have hres : removeDirBranch st p = some stC := h0
   have hmemR : ∀ k, k ∈ removed ↔ ∃ q, (q, k) ∈ st.nodeMap ∧ startsWith q p = true := by
     intro k
     simp only [removed, List.mem_map, List.mem_filter]
@@ -2297,9 +2420,9 @@ theorem removeDirBranch_inv {P : Params} {init : Fs} {last : Cfg} {st : State} {
     · rintro ⟨⟨a, b⟩, ⟨g1, g2⟩, g3⟩
       simp at g3; subst g3; exact ⟨a, g1, g2⟩
     · rintro ⟨q, g1, g2⟩; exact ⟨(q, k), ⟨g1, g2⟩, rfl⟩
-  have hmapiff : ∀ e, e ∈ (removeDirBranch st p).nodeMap ↔ e ∈ st.nodeMap ∧ startsWith e.1 p = false := by
+  have hmapiff : ∀ e, e ∈ stC.nodeMap ↔ e ∈ st.nodeMap ∧ startsWith e.1 p = false := by
     intro e
-    rw [hres, h8]
+    rw [h8]
     show e ∈ st.nodeMap.filter (fun e => !(startsWith e.1 p)) ↔ _
     simp [List.mem_filter]
   have hsameKey : ∀ e, e ∈ st.nodeMap → (e.2 ∈ removed ↔ startsWith e.1 p = true) := by
@@ -2312,13 +2435,24 @@ theorem removeDirBranch_inv {P : Params} {init : Fs} {last : Cfg} {st : State} {
       rw [a1] at b1; simp at b1; subst b1
       rw [← b2, a2]; exact g2
     · intro h; exact ⟨e.1, he, h⟩
-  have hIC : Inv P init last (removeDirBranch st p) := by
-    rw [hres]
+  have hextiff : ∀ d k, (d, k) ∈ stC.extDeps ↔ (d, k) ∈ st.extDeps ∧ ¬ k ∈ removed := by
+    intro d k
+    rw [h7]
+    show (d, k) ∈ st.extDeps ∧ _ ↔ _
+    constructor
+    · rintro ⟨g1, g2⟩
+      refine ⟨g1, ?_⟩
+      intro hk
+      obtain ⟨it, g3, g4⟩ := hI.ext_sub d k g1
+      exact g2 ⟨hk, it, g3, g4⟩
+    · rintro ⟨g1, g2⟩
+      exact ⟨g1, fun g3 => g2 g3.1⟩
+  have hIC : Inv P init last stC := by
     apply vacate_inv (fun k => k ∈ removed) hI
-    · intro j hj; rw [h1]; simp [hj]; 
+    · intro j hj; rw [h1]; simp [hj]
     · intro j hj; rw [h1]; simp [hj]; rfl
     · intro e
-      rw [← hres, hmapiff]
+      rw [hmapiff]
       constructor
       · rintro ⟨g1, g2⟩
         refine ⟨g1, ?_⟩
@@ -2334,24 +2468,35 @@ theorem removeDirBranch_inv {P : Params} {init : Fs} {last : Cfg} {st : State} {
     · rw [h4]
     · intro q; rw [h5]; rfl
     · rw [h6]
-    · intro d k
-      rw [h7]
-      show (d, k) ∈ st.extDeps ↔ _
-      constructor
-      · intro g
-        refine ⟨g, ?_⟩
-        intro hk
-        obtain ⟨q, g1, g2⟩ := (hmemR k).1 hk
-        rw [hno d k g q g1] at g2; cases g2
-      · intro g; exact g.1
-  refine ⟨hIC, by rw [hres, h6], by rw [hres, h9], by rw [hres, h10], by rw [hres, h11], hmapiff, ?_, ?_⟩
+    · exact hextiff
+  refine ⟨stC, hres, hIC, h6, h9, h10, h11, hmapiff, ?_, ?_⟩
   · intro j it' hj
-    rw [hres, h1] at hj
+    rw [h1] at hj
     by_cases hm : j ∈ removed
     · simp [hm] at hj
     · simp only [hm, if_false] at hj; exact hj
   · intro d k h
-    rw [hres, h7] at h; exact h
+    exact ((hextiff d k).1 h).1
+
+/-- `update_external_dependencies` for a list of keys: afterwards nothing is linked to any of them -/
+theorem updateExtAll_inv {P : Params} {init : Fs} {last : Cfg} (ds : List Path) :
+    ∀ (st : State), Inv P init last st →
+    ∃ st', updateExternalDependenciesAll st ds = some st' ∧ Inv P init last st' ∧ Frame st st'
+      ∧ (∀ d j, (d, j) ∈ st'.extDeps → (d, j) ∈ st.extDeps)
+      ∧ (∀ d j, d ∈ ds → (d, j) ∉ st'.extDeps) := by
+  induction ds with
+  | nil => intro st hI; exact ⟨st, rfl, hI, Frame.refl st, fun _ _ h => h, by simp⟩
+  | cons d ds ih =>
+    intro st hI
+    obtain ⟨st1, a1, a2, a3, _, a5, a6⟩ := updateExt_inv d hI
+    obtain ⟨st', b1, b2, b3, b4, b5⟩ := ih st1 a2
+    refine ⟨st', by simp only [updateExternalDependenciesAll, a1]; exact b1, b2, a3.trans b3,
+      fun x j h => a5 x j (b4 x j h), ?_⟩
+    intro x j hx h
+    simp only [List.mem_cons] at hx
+    rcases hx with hx | hx
+    · subst hx; exact a6 j (b4 x j h)
+    · exact b5 x j hx h
 
 /-- deleting the files at or below `p` from the file system, once nothing depends on them -/
 theorem fsRemoveTree_inv {P : Params} {init : Fs} {last : Cfg} {st : State} {p : Path} (hWF : WF P init)
@@ -2423,6 +2568,7 @@ theorem fsRemoveTree_inv {P : Params} {init : Fs} {last : Cfg} {st : State} {p :
       show alookup (fsRemoveTree st.fs p) q = _
       rw [hfs, hout q hq]; simpa using h
   · exact hI.rm_src
+  · exact hI.rm_noitem
 
 
 theorem any_false_mem {α : Type} {l : List α} {f : α → Bool} (h : l.any f = false) {x : α} (hx : x ∈ l) :
@@ -2430,15 +2576,7 @@ theorem any_false_mem {α : Type} {l : List α} {f : α → Bool} (h : l.any f =
   rw [List.any_eq_false] at h
   simpa using h x hx
 
-theorem strictlyUnder_false_of {q p : Path} (h : strictlyUnder q p = false) (hne : q ≠ p) :
-    startsWith q p = false := by
-  unfold strictlyUnder at h
-  simp only [Bool.and_eq_false_iff, bne_eq_false_iff_eq] at h
-  rcases h with h | h
-  · exact absurd h hne
-  · exact h
-
-/-- `remove_source` (file or directory event) keeps the invariant outside the regions F10 / X -/
+/-- `remove_source` (file or directory event) keeps the invariant (outside region X) -/
 theorem removeStep_good {P : Params} {init : Fs} {last : Cfg} {st : State} (p : Path)
     (hWF : WF P init) (hG : Good P init last st) (hreg : regionOfRemove P st p = none) :
     ∃ st', ofOpt (removeSource { st with fs := fsRemoveTree st.fs p } p) = .ok st' ∧ Good P init last st' := by
@@ -2456,61 +2594,35 @@ theorem removeStep_good {P : Params} {init : Fs} {last : Cfg} {st : State} (p : 
   -- both branches: a state `stC` with the invariant, the sources at or below `p` gone
   have hbr : ∃ stC, removeBranches st p = some stC ∧ Inv P init last stC ∧ stC.fs = st.fs
       ∧ stC.hasCreated = st.hasCreated ∧ stC.lastHash = st.lastHash
-      ∧ (∀ e, e ∈ stC.nodeMap ↔ e ∈ st.nodeMap ∧ startsWith e.1 p = false)
-      ∧ (∀ d k, (d, k) ∈ stC.extDeps → (d, k) ∈ st.extDeps)
-      ∧ (∀ q k, strictlyUnder q p = true → (alookup st.fs q).isSome = true → (q, k) ∉ st.extDeps) := by
+      ∧ (∀ e, e ∈ stC.nodeMap ↔ e ∈ st.nodeMap ∧ startsWith e.1 p = false) := by
     unfold removeBranches
     cases hl : alookup st.nodeMap p with
     | some i =>
       rw [hl] at hreg
       simp only at hreg
-      have hX : (st.fs.any (fun e => strictlyUnder e.1 p) || st.nodeMap.any (fun e => strictlyUnder e.1 p)) = false := by
-        cases h : (st.fs.any (fun e => strictlyUnder e.1 p) || st.nodeMap.any (fun e => strictlyUnder e.1 p)) with
+      have hX : st.nodeMap.any (fun e => strictlyUnder e.1 p) = false := by
+        cases h : st.nodeMap.any (fun e => strictlyUnder e.1 p) with
         | false => rfl
-        | true => simp [h] at hreg
-      simp only [Bool.or_eq_false_iff] at hX
+        | true => rw [h] at hreg; simp at hreg
       obtain ⟨it, hit, _, _⟩ := hI.nm_item p i (alookup_some_mem _ _ _ hl)
       obtain ⟨stC, g1, g2, g3, g4, g5, g6, g7, g8, g9⟩ := removeFileBranch_inv hI hl hit
       simp only [hit]
-      refine ⟨stC, g1, g2, g3, g5, g6, ?_, g9, ?_⟩
-      · intro e
-        rw [g7]
-        constructor
-        · rintro ⟨h1, h2⟩
-          exact ⟨h1, strictlyUnder_false_of (any_false_mem hX.2 h1) h2⟩
-        · rintro ⟨h1, h2⟩
-          refine ⟨h1, ?_⟩
-          intro h3
-          have : startsWith e.1 p = true := by rw [h3]; simp [startsWith]
-          rw [this] at h2; cases h2
-      · intro q k hq hsome _
-        obtain ⟨v, hv⟩ := (alookup_isSome_iff _ _).1 hsome
-        have := any_false_mem hX.1 hv
-        simp only at this
-        rw [hq] at this; cases this
+      refine ⟨stC, g1, g2, g3, g5, g6, ?_⟩
+      intro e
+      rw [g7]
+      constructor
+      · rintro ⟨h1, h2⟩
+        exact ⟨h1, strictlyUnder_false_of (any_false_mem hX h1) h2⟩
+      · rintro ⟨h1, h2⟩
+        refine ⟨h1, ?_⟩
+        intro h3
+        have : startsWith e.1 p = true := by rw [h3]; simp [startsWith]
+        rw [this] at h2; cases h2
     | none =>
-      rw [hl] at hreg
-      simp only at hreg
-      have hF : st.extDeps.any (fun e =>
-          st.nodeMap.any (fun m => m.2 == e.2 && startsWith m.1 p) || strictlyUnder e.1 p) = false := by
-        cases h : st.extDeps.any (fun e =>
-          st.nodeMap.any (fun m => m.2 == e.2 && startsWith m.1 p) || strictlyUnder e.1 p) with
-        | false => rfl
-        | true => simp [h] at hreg
-      have hno : ∀ d k, (d, k) ∈ st.extDeps → ∀ q, (q, k) ∈ st.nodeMap → startsWith q p = false := by
-        intro d k hdk q hq
-        have := any_false_mem hF hdk
-        simp only [Bool.or_eq_false_iff] at this
-        have := any_false_mem this.1 hq
-        simpa using this
-      obtain ⟨g2, g3, g4, g5, g6, g7, g8, g9⟩ := removeDirBranch_inv (p := p) hI hno
-      refine ⟨removeDirBranch st p, rfl, g2, g3, g5, g6, g7, g9, ?_⟩
-      intro q k hq _ hmem
-      have := any_false_mem hF hmem
-      simp only [Bool.or_eq_false_iff] at this
-      rw [hq] at this; cases this.2
-  obtain ⟨stC, c1, c2, c3, c4, c5, c6, c7, c8⟩ := hbr
-  obtain ⟨stD, d1, d2, d3, d4, d5, d6⟩ := updateExt_inv p c2
+      obtain ⟨stC, g1, g2, g3, g4, g5, g6, g7, _, _⟩ := removeDirBranch_inv (p := p) hI
+      exact ⟨stC, g1, g2, g3, g5, g6, g7⟩
+  obtain ⟨stC, c1, c2, c3, c4, c5, c6⟩ := hbr
+  obtain ⟨stD, d1, d2, d3, d5, d6⟩ := updateExtAll_inv (keysBelow stC p) stC c2
   have hrs : removeSource st p = some stD := by
     rw [removeSource_eq, c1]; exact d1
   have hstep : removeSource { st with fs := fsRemoveTree st.fs p } p = some (withFs stD (fsRemoveTree st.fs p)) := by
@@ -2526,12 +2638,13 @@ theorem removeStep_good {P : Params} {init : Fs} {last : Cfg} {st : State} (p : 
       exact ((c6 (q, k)).1 hq).2
     · exact hpo
     · exact hop
-    · intro q k hq hsome hmem
-      by_cases hqp : q = p
-      · subst hqp; exact d6 k hmem
-      · have hsu : strictlyUnder q p = true := by simp [strictlyUnder, hqp, hq]
-        rw [hfsD] at hsome
-        exact c8 q k hsu hsome (c7 q k (d5 q k hmem))
+    · intro q k hq _ hmem
+      have hC : (q, k) ∈ stC.extDeps := d5 q k hmem
+      have hkey : q ∈ keysBelow stC p := by
+        unfold keysBelow
+        simp only [List.mem_filter, List.mem_map]
+        exact ⟨⟨(q, k), hC, rfl⟩, hq⟩
+      exact d6 q k hkey hmem
   · intro hc
     have hc0 : st.hasCreated = false := by
       rw [← c4, ← d3.hasCreated]; exact hc
@@ -2585,17 +2698,14 @@ theorem preProcess_facts {P : Params} {init : Fs} {last : Cfg} {st : State} (hG 
     exact h3 p hp hin hlua
 
 theorem regionAfterConfig_none {P : Params} {st1 : State} (h : regionAfterConfig P st1 = none) :
-    outputClash st1 = false ∧ outputUnder st1 = false ∧ failsOverOutput P st1 = false := by
+    outputUnder st1 = false ∧ failsOverOutput P st1 = false := by
   unfold regionAfterConfig at h
-  cases hB : outputClash st1 with
-  | true => rw [hB] at h; simp at h
+  cases hC : outputUnder st1 with
+  | true => rw [hC] at h; simp at h
   | false =>
-    cases hC : outputUnder st1 with
-    | true => rw [hB, hC] at h; simp at h
-    | false =>
-      cases hD : failsOverOutput P st1 with
-      | true => rw [hB, hC, hD] at h; simp at h
-      | false => exact ⟨rfl, rfl, rfl⟩
+    cases hD : failsOverOutput P st1 with
+    | true => rw [hC, hD] at h; simp at h
+    | false => exact ⟨rfl, rfl⟩
 
 theorem step_process_settled {P : Params} {init : Fs} {last : Cfg} {st : State} (hWF : WF P init)
     (hG : Good P init last st) (hreg : regionOfProcess P last st = none) :
@@ -2615,18 +2725,14 @@ theorem step_process_settled {P : Params} {init : Fs} {last : Cfg} {st : State} 
     rw [this] at hA; cases hA
   rw [hA] at hreg
   simp only [Bool.false_eq_true, if_false] at hreg
-  obtain ⟨hB, hC, hD⟩ := regionAfterConfig_none hreg
+  obtain ⟨hC, hD⟩ := regionAfterConfig_none hreg
   have hres := processTree_settled (P := P) (init := init) (last := last) (st := preProcess P st) hWF p1 p2 p3
     (Or.inl (p4.trans hH)) hF13
     (by
       intro q hq j it hj
-      unfold outputClash at hB
       unfold outputUnder at hC
-      have b1 := any_false_item (any_false_mem hB hq) hj
       have c1 := any_false_item (any_false_mem hC hq) hj
-      simp only at b1 c1
-      have hneq : it.output ≠ q := by simpa using b1
-      exact strictlyUnder_false_of c1 hneq)
+      simpa using c1)
     (by
       intro j it hj hnd hout
       unfold failsOverOutput at hD
@@ -2656,6 +2762,7 @@ theorem start_settled {P : Params} {init : Fs} (cfg : Cfg) (hWF : WF P init) :
     · intro i it ok h; simp [st1, State.empty, State.item?] at h
     · intro q _; right; right; rfl
     · intro q h; cases h
+    · intro q h; cases h
   obtain ⟨c1, c2, c3⟩ := collectWork_inv hI1
   have hres := processTree_settled (P := P) (init := init) (last := cfg) (st := collectWork P st1) hWF c1 c3
     (by rw [c2.hasCreated]; rfl) (Or.inr ⟨by rw [c2.lastHash]; rfl, by rw [c2.cfg]; rfl⟩)
@@ -2665,7 +2772,7 @@ theorem start_settled {P : Params} {init : Fs} (cfg : Cfg) (hWF : WF P init) :
       obtain ⟨_, _, _, g4, _⟩ := configStep_inv c1
         (Or.inr ⟨by rw [c2.lastHash]; rfl, by rw [c2.cfg]; rfl⟩)
         (by rintro ⟨h, _⟩; rw [c2.lastHash] at h; cases h)
-      rw [g4, c2.removeFiles] at hq; cases hq)
+      rw [g4] at hq; cases (c2.removeFiles q hq))
     (by
       intro j it hj _ _
       obtain ⟨g1, g2, _, _, _⟩ := configStep_inv c1
@@ -2739,16 +2846,22 @@ theorem runOps_good {P : Params} {init : Fs} (hWF : WF P init) (ops : List Op) :
         · exact r3 h
 
 
-/-! ### the generalised counter logic (finding F26) -/
+/-! ### the generalised counter logic (finding F26, fixed) -/
 
-theorem genLoop_stuck (total : Nat) (ds : List Nat) : ∀ pending, pending < total → genLoop total pending ds = false := by
+theorem genLoop_terminates (total : Nat) (ds : List Nat) : ∀ acc pending, pending < ds.length →
+    genLoop total acc pending ds ≠ .running := by
   induction ds with
-  | nil => intro _ _; rfl
+  | nil => intro _ _ h; simp at h
   | cons d ds ih =>
-    intro pending h
+    intro acc pending h
     simp only [genLoop]
-    have h1 : min d pending ≠ total := by omega
-    simp only [h1, if_false]
-    exact ih _ (by omega)
+    split
+    · simp
+    · split
+      · simp
+      · rename_i h1 h2
+        apply ih
+        simp only [List.length_cons] at h
+        omega
 
 end DarkluaModel.C10
